@@ -42,17 +42,17 @@ TOL = 2e-3
 
 # --------------------------------------------------------------------------- helpers
 def map_and_loss_smse(model, x, y, aux_data):
-    out, aux_data = jax.vmap(model, in_axes=(0, None), out_axes=(0, None))(x, aux_data)
+    out, aux_data = jax.vmap(model, in_axes=(0, None), out_axes=(0, None), axis_name="batch")(x, aux_data)
     return ml.smse_loss(out, y), aux_data
 
 
 def map_and_loss_timestep(model, x, y, aux_data):
-    out, aux_data = jax.vmap(model, in_axes=(0, None), out_axes=(0, None))(x, aux_data)
+    out, aux_data = jax.vmap(model, in_axes=(0, None), out_axes=(0, None), axis_name="batch")(x, aux_data)
     return jnp.sum(ml.timestep_smse_loss(out, y, 1)), aux_data
 
 
 def map_and_loss_with_map(model, x, y, aux_data):
-    out, aux_data = jax.vmap(model, in_axes=(0, None), out_axes=(0, None))(x, aux_data)
+    out, aux_data = jax.vmap(model, in_axes=(0, None), out_axes=(0, None), axis_name="batch")(x, aux_data)
     return ml.smse_loss(out, y), aux_data, out
 
 
